@@ -12,6 +12,13 @@ TARGETS = [
  ("template/escape.go", "escapeTemplate,escapeTree,computeOutCtx,escapeTemplateBody,escapeListConditionally,commit,template,arbitraryTemplate,mangle,editActionNode,editTemplateNode,editTextNode,escapeBranch,escapeList,escape,escapeAction,ensurePipelineContains,makeEscaper"),
  ("template/trustedfs.go", ""),
 ]
+TARGETS2 = [
+ ("template/escape.go", ""),
+ ("template/transition.go", ""),
+ ("template/context.go", ""),
+ ("template/sanitize.go", ""),
+ ("template/url.go", ""),
+]
 def sh(cmd, cwd=None, env=ENV, timeout=7200):
     try:
         p = subprocess.run(cmd, shell=True, cwd=cwd, env=env, stdout=subprocess.PIPE, stderr=subprocess.STDOUT, text=True, errors="replace", timeout=timeout)
@@ -20,13 +27,14 @@ def sh(cmd, cwd=None, env=ENV, timeout=7200):
         return 124, "timeout"
 def main():
     ap = argparse.ArgumentParser(); ap.add_argument("--from", dest="lo", type=int, default=0); ap.add_argument("--to", dest="hi", type=int, default=10**9)
-    ap.add_argument("--out", default=os.path.join(VERIF, "sim", "automut_result.json")); a = ap.parse_args()
+    ap.add_argument("--out", default=os.path.join(VERIF, "sim", "automut_result.json")); ap.add_argument("--set", type=int, default=1); a = ap.parse_args()
+    targets, checks = (TARGETS, ["C08", "C05", "C06", "C07", "C09"]) if a.set == 1 else (TARGETS2, ["C08", "C06", "C05"])
     amut = os.path.join(VERIF, "bin", "automutate")
     if not os.path.exists(amut):
         os.makedirs(os.path.join(VERIF, "bin"), exist_ok=True)
         rc, out = sh("go build -o %s ." % amut, cwd=os.path.join(VERIF, "sim", "automutate")); assert rc == 0, out
     muts = []
-    for f, funcs in TARGETS:
+    for f, funcs in targets:
         rc, out = sh("%s -file /repo/%s -funcs '%s' -list" % (amut, f, funcs))
         for line in out.splitlines():
             k, desc = line.split("\t", 1); muts.append((f, funcs, int(k), desc))
@@ -45,7 +53,7 @@ def main():
             rc, out = sh("timeout 90 go test -vet=off -count=1 ./...", cwd=wt, timeout=150)
             if rc != 0: rec["status"] = "killed-by-suite"; continue
             rec["status"] = "survives-suite"; rec["checks"] = {}
-            for c in ["C08", "C05", "C06", "C07", "C09"]:
+            for c in checks:
                 rc, out = sh("%s/check %s quick" % (VERIF, c), env=dict(ENV, VERIF_REPO=wt), cwd=VERIF)
                 cls = sorted(set(l.split("class=")[1].split()[0] for l in out.splitlines() if l.startswith("violation class=")))
                 rec["checks"][c] = {"rc": rc, "classes": cls}
